@@ -17,6 +17,9 @@ FINDINGS (proved here, reproduced on real fairlearn by harness/props/c02.py):
       `r ∉ (-1,0)` (`ratioSubOne_eq_min_iff`); for a negative quotient in (-1,0) it keeps `r`.
 -/
 import FairModel.Lemmas.Aggregate
+import FairModel.Lemmas.AggregateGen
+import FairModel.Lemmas.AggregateFrame
+import FairModel.Lemmas.AggregateMore
 import FairModel.Lemmas.WeightedMean
 import FairModel.Properties.C01
 import FairModel.Model.MetricPool
@@ -540,6 +543,235 @@ theorem overall_le_between_of_weighted_mean (q : Dat → Rat) (ncf nsf : Nat) (h
         (by rw [groupMin_at e t (Or.inr hs) hc, h1]) (by rw [groupMax_at e t (Or.inr hs) hc, h2])
         ho hmo hoM hb hov
 
+/-! ### the method bodies lifted from the source are the model
+
+`Generated/AggregateGen.lean` is rewritten on every run by symbolic execution of the bodies of
+`DisaggregatedResult.apply_grouping / difference / ratio` (method dispatch, which grouping function is
+combined with which operator, the `.abs()`, the final `groupby(level=control).max()` / `.min()`, the
+unstack round trip), as compositions of the pandas-level primitives of `Model/AggregatePrim.lean`.
+Every theorem of this file is about `Aggregate.applyGrouping / difference / ratio`; these three say
+that this IS the lifted source text, for every table, method and errors value. -/
+
+theorem applyGroupingGen_eq_model (g : Grouping) (e : Errors) (t : Tables) :
+    AggregateGen.applyGroupingGen g e t = applyGrouping g e t := AggregateGen.applyGroupingGen_eq g e t
+
+theorem differenceGen_eq_model (m : Method) (e : Errors) (t : Tables) :
+    AggregateGen.differenceGen m e t = difference m e t := AggregateGen.differenceGen_eq m e t
+
+theorem ratioGen_eq_model (m : Method) (e : Errors) (t : Tables) :
+    AggregateGen.ratioGen m e t = ratio m e t := AggregateGen.ratioGen_eq m e t
+
+/-! ### when the disparities vanish -/
+
+/-- between_groups difference = 0 iff the stratum has a non-empty group and all non-empty groups have
+    the same value -/
+theorem difference_between_eq_zero_iff (e : Errors) (t : Tables) (hs : e = .coerce ∨ hasNonscalar t = false)
+    (hf : FiniteCells t) (c : Key) (hc : c ∈ strata t) :
+    valueAt (difference .between e t) c = some (fin 0) ↔
+      (fins (vals t c) ≠ [] ∧ ∀ p ∈ fins (vals t c), ∀ q ∈ fins (vals t c), p = q) := by
+  have hfn := finNan_vals hf c
+  rw [difference_between_at e t hs hc]
+  rcases min_max_together hfn with ⟨h1, _⟩ | ⟨m, M, h1, h2, _⟩
+  · rw [h1, diffOf_nan]
+    constructor
+    · intro h; cases h
+    · intro ⟨hne, _⟩; exact absurd (minSkip_eq_nan hfn h1) hne
+  · rw [h1, diffOf_min hfn h1 h2]
+    have hiff := min_eq_max_iff hfn h1 h2
+    constructor
+    · intro h
+      injection h with h; injection h with h
+      have hall := hiff.mp (by linarith)
+      exact ⟨fins_ne_nil_of_min hfn h1, fun p hp q hq => by rw [hall p hp, hall q hq]⟩
+    · intro ⟨_, hall⟩
+      have : M = m := hall M (maxSkip_eq_fin hfn h2).1 m (minSkip_eq_fin hfn h1).1
+      rw [this]; simp
+
+/-- to_overall difference = 0 iff the stratum has a non-empty group and every non-empty group equals
+    the overall value of the stratum -/
+theorem difference_overall_eq_zero_iff (e : Errors) (t : Tables) (hs : hasNonscalar t = false)
+    (hf : FiniteCells t) (c : Key) (hc : c ∈ strata t) (o : Rat) (ho : overallAt t c = fin o) :
+    valueAt (difference .toOverall e t) c = some (fin 0) ↔
+      (fins (vals t c) ≠ [] ∧ ∀ q ∈ fins (vals t c), q = o) := by
+  rw [difference_overall_at e t hs hc, ho]
+  constructor
+  · intro h; injection h with h
+    exact (diffOf_eq_zero_iff (finNan_vals hf c) o).mp h
+  · intro h
+    rw [(diffOf_eq_zero_iff (finNan_vals hf c) o).mpr h]
+
+/-- between_groups ratio = 1 iff the stratum has a non-empty group, all non-empty groups have the
+    same value, and that value is not zero (0/0 is NaN) -/
+theorem ratio_between_eq_one_iff (e : Errors) (t : Tables) (hs : e = .coerce ∨ hasNonscalar t = false)
+    (hf : FiniteCells t) (c : Key) (hc : c ∈ strata t) :
+    valueAt (ratio .between e t) c = some (fin 1) ↔
+      ∃ v, v ≠ 0 ∧ fins (vals t c) ≠ [] ∧ ∀ q ∈ fins (vals t c), q = v := by
+  have hfn := finNan_vals hf c
+  rw [ratio_between_at e t hs hc]
+  rcases min_max_together hfn with ⟨h1, _⟩ | ⟨m, M, h1, h2, _⟩
+  · rw [h1]
+    constructor
+    · intro h; cases h
+    · intro ⟨_, _, hne, _⟩; exact absurd (minSkip_eq_nan hfn h1) hne
+  · rw [h1, h2]
+    have hiff := min_eq_max_iff hfn h1 h2
+    constructor
+    · intro h
+      injection h with h
+      obtain ⟨hmM, hM0⟩ := (div_eq_one_iff m M).mp h
+      exact ⟨m, by rw [hmM]; exact hM0, fins_ne_nil_of_min hfn h1, hiff.mp hmM.symm⟩
+    · intro ⟨v, hv, _, hall⟩
+      have hm : m = v := hall m (minSkip_eq_fin hfn h1).1
+      have hM : M = v := hall M (maxSkip_eq_fin hfn h2).1
+      rw [(div_eq_one_iff m M).mpr ⟨by rw [hm, hM], by rw [hM]; exact hv⟩]
+
+/-- exactly one non-empty group `v` in the stratum: between_groups difference 0, ratio 1 — or NaN when
+    `v = 0` (0/0) -/
+theorem single_group (e : Errors) (t : Tables) (hs : e = .coerce ∨ hasNonscalar t = false)
+    (hf : FiniteCells t) (c : Key) (hc : c ∈ strata t) (v : Rat) (hv : fins (vals t c) = [v]) :
+    valueAt (groupMin e t) c = some (fin v) ∧ valueAt (groupMax e t) c = some (fin v) ∧
+    valueAt (difference .between e t) c = some (fin 0) ∧
+    valueAt (ratio .between e t) c = some (if v = 0 then nan else fin 1) := by
+  have hfn := finNan_vals hf c
+  obtain ⟨h1, h2⟩ := single_min_max hfn hv
+  refine ⟨by rw [groupMin_at e t hs hc, h1], by rw [groupMax_at e t hs hc, h2], ?_, ?_⟩
+  · rw [difference_between_at e t hs hc, h1, diffOf_min hfn h1 h2]; simp
+  · rw [ratio_between_at e t hs hc, h1, h2, div_fin_fin]
+    by_cases h0 : v = 0
+    · simp [h0]
+    · simp [h0]
+
+/-! ### ratio(to_overall) ≥ ratio(between_groups) -/
+
+/-- on a stratum with non-negative group values whose overall value lies between the group minimum and
+    maximum, the to_overall ratio is never smaller than the between_groups ratio -/
+theorem ratio_overall_ge_between (e : Errors) (t : Tables) (hs : hasNonscalar t = false)
+    (hf : FiniteCells t) (c : Key) (hc : c ∈ strata t) (hnn : ∀ q ∈ fins (vals t c), 0 ≤ q)
+    (m M o rb ro : Rat) (hm : minSkip (vals t c) = fin m) (hM : maxSkip (vals t c) = fin M)
+    (ho : overallAt t c = fin o) (hmo : m ≤ o) (hoM : o ≤ M)
+    (hb : valueAt (ratio .between e t) c = some (fin rb))
+    (hov : valueAt (ratio .toOverall e t) c = some (fin ro)) : rb ≤ ro := by
+  rw [ratio_between_at e t (Or.inr hs) hc, hm, hM] at hb
+  rw [ratio_overall_at e t hs hc, ho] at hov
+  injection hb with hb; injection hov with hov
+  exact ratioOverallOf_ge_between (finNan_vals hf c) hnn hm hM hmo hoM hb hov
+
+/-- the clause is FALSE without "overall between the extremes": groups 1, 2 with overall 4 give
+    between = 1/2 but to_overall = 1/4 -/
+theorem ratio_overall_ge_between_needs_between :
+    ∃ t : Tables, hasNonscalar t = false ∧
+      valueAt (ratio .between .coerce t) [] = some (fin (1/2)) ∧
+      valueAt (ratio .toOverall .coerce t) [] = some (fin (1/4)) :=
+  ⟨⟨0, [(["a"], .scalar (fin 1)), (["b"], .scalar (fin 2))], [([], .scalar (fin 4))], false⟩,
+   by decide +kernel, by decide +kernel, by decide +kernel⟩
+
+open MetricPool in
+/-- Hence for NON-NEGATIVE weighted-mean metrics (selection rate, accuracy, mean prediction of
+    non-negative predictions) with positive weights, on the tables MetricFrame builds from any
+    dataset with any number of sensitive / control features: ratio(to_overall) ≥ ratio(between_groups)
+    in every control stratum. -/
+theorem ratio_overall_ge_between_of_weighted_mean (q : Dat → Rat) (ncf nsf : Nat) (hn : 0 < ncf + nsf)
+    (rows : List (Row Dat)) (hwf : WF ncf nsf rows) (hw : ∀ r ∈ rows, 0 < r.dat.p0)
+    (e : Errors) (c : Key) (hc : c ∈ strata (ofFrame ncf nsf (wmean q) rows))
+    (hs : hasNonscalar (ofFrame ncf nsf (wmean q) rows) = false)
+    (hf : FiniteCells (ofFrame ncf nsf (wmean q) rows))
+    (hnn : ∀ v ∈ fins (vals (ofFrame ncf nsf (wmean q) rows) c), 0 ≤ v) (rb ro : Rat)
+    (hb : valueAt (ratio .between e (ofFrame ncf nsf (wmean q) rows)) c = some (fin rb))
+    (hov : valueAt (ratio .toOverall e (ofFrame ncf nsf (wmean q) rows)) c = some (fin ro)) :
+    rb ≤ ro := by
+  set t := ofFrame ncf nsf (wmean q) rows
+  have hfn := finNan_vals hf c
+  have hb' := hb
+  rw [ratio_between_at e t (Or.inr hs) hc] at hb'
+  injection hb' with hb'
+  rcases min_max_together hfn with ⟨h1, _⟩ | ⟨m, M, h1, h2, _⟩
+  · rw [h1] at hb'; cases hb'
+  · have hov' := hov
+    rw [ratio_overall_at e t hs hc] at hov'
+    injection hov' with hov'
+    rcases overallAt_finNan hf c with ho | ⟨o, ho⟩
+    · -- a NaN overall value makes every quotient NaN
+      rw [ho] at hov'
+      exfalso
+      unfold ratioOverallOf at hov'
+      simp only [AggregateSpec.ratioOverallAgg, Grouping.apply] at hov'
+      rcases minSkip_mem ((vals t c).map (fun v => AggregateSpec.ratioSubOne (XR.div v nan))) with hn' | hmem
+      · rw [hn'] at hov'; cases hov'
+      · rw [hov'] at hmem
+        obtain ⟨v, _, hve⟩ := List.mem_map.mp hmem
+        have : XR.div v nan = nan := by cases v <;> rfl
+        rw [this, ratioSubOne_nan] at hve; cases hve
+    · obtain ⟨hmo, hoM⟩ := wmean_overall_between q ncf nsf hn rows hwf hw c o m M ho h1 h2
+      exact ratio_overall_ge_between e t hs hf c hc hnn m M o rb ro h1 h2 ho hmo hoM hb hov
+
+/-! ### multi-metric frames: every aggregate is computed column by column
+
+`AggFrame.FTables` is a MetricFrame with any number `ncols` of metric columns (by_group / overall kept
+row-major like the pandas DataFrames); `colTab ft j` is metric column `j` as a single-metric table, with
+`othersNonscalar` = "some OTHER column holds a non-scalar cell"; `colX j` reads column `j` of a result.
+For rectangular frames (`WF`) with any number of columns, rows and control strata: -/
+
+open AggFrame in
+/-- group_min / group_max.  With `errors='raise'` the call fails for EVERY column as soon as one
+    by_group column holds a non-scalar cell (`frame_raise_fails_iff`), and so does the column model. -/
+theorem frame_group_col (g : Grouping) (e : Errors) (ft : FTables) (j : Nat) (hj : j < ft.ncols)
+    (hs : e = .coerce ∨ ovNs ft = false) :
+    (applyGroupingF g e ft).map (colX j) = applyGrouping g e (colTab ft j) :=
+  applyGroupingF_col g e ft hj hs
+
+open AggFrame in
+theorem frame_raise_fails_iff (g : Grouping) (ft : FTables) :
+    applyGroupingF g .raise ft = none ↔ byNs ft = true := applyGroupingF_raise_none_iff g ft
+
+open AggFrame in
+theorem frame_coerce_answers (g : Grouping) (ft : FTables) :
+    (applyGroupingF g .coerce ft).isSome = true := applyGroupingF_coerce_isSome g ft
+
+open AggFrame in
+theorem frame_difference_between_col (e : Errors) (ft : FTables) (hw : AggFrame.WF ft) (j : Nat)
+    (hj : j < ft.ncols) (hs : e = .coerce ∨ ovNs ft = false) :
+    (differenceF .between e ft).map (colX j) = difference .between e (colTab ft j) :=
+  differenceF_between_col e ft hw hj hs
+
+open AggFrame in
+theorem frame_difference_overall_col (e : Errors) (ft : FTables) (hw : AggFrame.WF ft) (j : Nat)
+    (hj : j < ft.ncols) (hs : byNs ft = false ∨ ovNs ft = true) :
+    (differenceF .toOverall e ft).map (colX j) = difference .toOverall e (colTab ft j) :=
+  differenceF_overall_col e ft hw hj hs
+
+open AggFrame in
+/-- `difference(method='to_overall')` coerces by_group but not overall: it fails iff an OVERALL cell is
+    non-scalar, and non-scalar by_group cells count as NaN — for both values of `errors` -/
+theorem frame_difference_overall_errors (e : Errors) (ft : FTables) :
+    (differenceF .toOverall e ft = none ↔ ovNs ft = true) ∧
+    differenceF .toOverall e ft = differenceF .toOverall e (scrubBy ft) :=
+  ⟨differenceF_overall_none_iff e ft, differenceF_overall_scrub e ft⟩
+
+open AggFrame in
+theorem frame_ratio_between_col (e : Errors) (ft : FTables) (j : Nat)
+    (hj : j < ft.ncols) (hs : e = .coerce ∨ ovNs ft = false) :
+    (ratioF .between e ft).map (colX j) = ratio .between e (colTab ft j) :=
+  ratioF_between_col e ft hj hs
+
+open AggFrame in
+theorem frame_ratio_overall_col (e : Errors) (ft : FTables) (hw : AggFrame.WF ft) (j : Nat)
+    (hj : j < ft.ncols) :
+    (ratioF .toOverall e ft).map (colX j) = ratio .toOverall e (colTab ft j) :=
+  ratioF_overall_col e ft hw hj
+
+open AggFrame in
+/-- summary for all-scalar frames: all 12 results, column by column, are the single-metric results -/
+theorem frame_all_results_col (ft : FTables) (hw : AggFrame.WF ft) (j : Nat) (hj : j < ft.ncols)
+    (hb : byNs ft = false) (ho : ovNs ft = false) :
+    (allResultsF ft).map (fun r => r.map (colX j)) = allResults (colTab ft j) := by
+  simp only [allResultsF, allResults, groupMinF, groupMaxF, groupMin, groupMax, List.map_cons, List.map_nil]
+  rw [applyGroupingF_col .min .raise ft hj (Or.inr ho), applyGroupingF_col .min .coerce ft hj (Or.inr ho),
+    applyGroupingF_col .max .raise ft hj (Or.inr ho), applyGroupingF_col .max .coerce ft hj (Or.inr ho),
+    differenceF_between_col .raise ft hw hj (Or.inr ho), differenceF_between_col .coerce ft hw hj (Or.inr ho),
+    differenceF_overall_col .raise ft hw hj (Or.inl hb), differenceF_overall_col .coerce ft hw hj (Or.inl hb),
+    ratioF_between_col .raise ft hj (Or.inr ho), ratioF_between_col .coerce ft hj (Or.inr ho),
+    ratioF_overall_col .raise ft hw hj, ratioF_overall_col .coerce ft hw hj]
+
 /-! ### Non-vacuity -/
 
 def exT : Tables :=
@@ -570,5 +802,26 @@ example : groupMin .raise ⟨0, [(["a"], .nonscalar), (["b"], .scalar (fin 1))],
   decide +kernel
 example : groupMin .coerce ⟨0, [(["a"], .nonscalar), (["b"], .scalar (fin 1))], [([], .nonscalar)], false⟩
     = some [([], fin 1)] := by decide +kernel
+
+
+-- a two-metric frame with one control feature, a NaN cell and an all-NaN stratum; column 1 has a
+-- non-scalar by_group cell
+def exF : AggFrame.FTables :=
+  ⟨1, 2, [(["k", "a"], [.scalar (fin (1/2)), .scalar (fin 3)]), (["k", "b"], [.scalar nan, .nonscalar]),
+          (["m", "a"], [.scalar nan, .scalar nan]), (["m", "b"], [.scalar nan, .scalar (fin (-1))])],
+      [(["k"], [.scalar (fin 1), .scalar (fin 2)]), (["m"], [.scalar nan, .scalar (fin (-1))])]⟩
+
+example : AggFrame.WF exF := by decide +kernel
+example : AggFrame.byNs exF = true ∧ AggFrame.ovNs exF = false := by decide +kernel
+example : AggFrame.applyGroupingF .min .raise exF = none := by decide +kernel
+example : AggFrame.applyGroupingF .min .coerce exF = some [(["k"], [fin (1/2), fin 3]), (["m"], [nan, fin (-1)])] := by
+  decide +kernel
+example : AggFrame.differenceF .toOverall .raise exF = some [(["k"], [fin (1/2), fin 1]), (["m"], [nan, fin 0])] := by
+  decide +kernel
+example : AggFrame.ratioF .toOverall .coerce exF = none := by decide +kernel
+example : (AggFrame.colTab exF 0).othersNonscalar = true := by decide +kernel
+-- single group, zero value: ratio 0/0 = NaN
+example : ratio .between .coerce ⟨0, [(["a"], .scalar (fin 0)), (["b"], .scalar nan)], [([], .scalar (fin 0))], false⟩
+    = some [([], nan)] := by decide +kernel
 
 end C02
